@@ -153,10 +153,18 @@ var thumbprintAlg = crypto.SHA256
 // The rules are based on the Nuts RFC006
 // payload should be a json encoded did.document
 // Duplicates are handled as updates and will be merged. Merging two exactly the same DID Documents results in the original document.
-func (n *ambassador) callback(tx dag.Transaction, payload []byte) error {
+func (n *ambassador) callback(tx dag.Transaction, payload []byte) (err error) {
 	log.Logger().
 		WithField(core.LogFieldTransactionRef, tx.Ref()).
 		Debug("Processing DID document received from Nuts Network")
+	defer func() {
+		// The DID document is untrusted input. The DID library that parses and validates it panics on some malformed documents
+		// (e.g. a null entry in verificationMethod or in a verification relationship), which must never crash the node:
+		// this function is called from a goroutine of the network engine.
+		if r := recover(); r != nil {
+			err = fmt.Errorf("could not process new DID Document: %v", r)
+		}
+	}()
 	if err := checkTransactionIntegrity(tx); err != nil {
 		return fmt.Errorf("could not process new DID Document: %w", err)
 	}
@@ -172,7 +180,6 @@ func (n *ambassador) callback(tx dag.Transaction, payload []byte) error {
 	}
 
 	// update documents
-	var err error
 	if n.isUpdate(tx) {
 		err = n.handleUpdateDIDDocument(tx, nextDIDDocument)
 	} else {
